@@ -7,6 +7,7 @@ import (
 	"fmt"
 	"math/rand"
 	"sort"
+	"strings"
 	"sync"
 	"testing"
 	"time"
@@ -268,7 +269,7 @@ func vfc41CheckCover(start, end int64, subs []vfc41Sub) (string, string) {
 
 // vfc41CheckQuery: sub-request query must mean the same as the original evaluated over [start,end]
 // (@ start()/end() pinned to the ORIGINAL start/end, everything else textually the same expression).
-func vfc41CheckQuery(orig string, start, end int64, sub string) string {
+func vfc41CheckQuery(orig string, start, end int64, sub string, subStart, subEnd int64) string {
 	oe, err := parser.ParseExpr(orig)
 	if err != nil {
 		return ""
@@ -277,7 +278,7 @@ func vfc41CheckQuery(orig string, start, end int64, sub string) string {
 	if err != nil {
 		return fmt.Sprintf("sub-request query %q does not parse: %v", sub, err)
 	}
-	pin := func(e parser.Expr) string {
+	pin := func(e parser.Expr, start, end int64) string {
 		parser.Inspect(e, func(n parser.Node, _ []parser.Node) error {
 			switch v := n.(type) {
 			case *parser.VectorSelector:
@@ -301,7 +302,8 @@ func vfc41CheckQuery(orig string, start, end int64, sub string) string {
 		})
 		return e.String()
 	}
-	if a, b := pin(oe), pin(se); a != b {
+	// start()/end() left in a sub-request would mean the sub-request's own range
+	if a, b := pin(oe, start, end), pin(se, subStart, subEnd); a != b {
 		return fmt.Sprintf("sub-request query %q means %q, the original means %q", sub, b, a)
 	}
 	return ""
@@ -383,9 +385,16 @@ func vfc41Run(r *vfkit.Run, c int, cs vfc41Case, ctx context.Context, rangeCodec
 		}
 		seenQ := map[string]bool{}
 		for i, q := range reqs {
-			if !seenQ[q.GetQuery()] { // every distinct sub-request query text is decided once
-				seenQ[q.GetQuery()] = true
-				if what := vfc41CheckQuery(cs.Query, cs.Start, cs.End, q.GetQuery()); what != "" {
+			qk := q.GetQuery()
+			if strings.Contains(qk, "start()") || strings.Contains(qk, "end()") {
+				qk = fmt.Sprintf("%s|%d|%d", qk, q.GetStart(), q.GetEnd()) // its meaning depends on the sub-range
+				if i > 3 && i < len(reqs)-2 {
+					continue // first and last few sub-requests are enough for a text that is wrong everywhere
+				}
+			}
+			if !seenQ[qk] { // every distinct sub-request query text is decided once
+				seenQ[qk] = true
+				if what := vfc41CheckQuery(cs.Query, cs.Start, cs.End, q.GetQuery(), q.GetStart(), q.GetEnd()); what != "" {
 					r.Violation(c, "range:query-changed", fmt.Sprintf("sub-request #%d: %s", i, what), wit(subs, "splitQuery"))
 					return
 				}
